@@ -210,3 +210,32 @@ def dataset_views(d):
     if bid.shape != eb.shape or not np.array_equal(bid, eb):
         return 'get_bucket_ids %r != %r' % (bid.tolist(), eb.tolist())
     return None
+
+
+def ds_shards(blocks, per=20, maxk=64, **extra):
+    """blocks: list of dicts with n, m (+anything).  One shard dict per stripe."""
+    shards = []
+    for b in blocks:
+        total = spaces.SWO_COUNT[b['n']] ** b['m']
+        k = max(1, min(maxk, total // per))
+        for s in range(k):
+            d = dict(b)
+            d.update(extra)
+            d.update(shard=s, nshards=k)
+            shards.append(d)
+    return shards
+
+
+def ds_expected(blocks):
+    return sum(spaces.SWO_COUNT[b['n']] ** b['m'] - 1 for b in blocks)
+
+
+def tt(x):
+    """json lists -> nested tuples (abstract rankings / datasets)."""
+    if isinstance(x, (list, tuple)):
+        return tuple(tt(v) for v in x)
+    return x
+
+
+def scheme_of(c):
+    return (tuple(float(v) for v in c[0]), tuple(float(v) for v in c[1]))
